@@ -61,3 +61,30 @@ package authenticators
 //@ iface (SubjectFactory).CreateSubject
 //@   props C01 C04 C05
 //@   ensures ret1 == nil ==> ret0 != nil
+
+// ---- C04: fallback on error is exactly what the rule says, else what the catalogue says ----
+// (conf is the function's local decode target; its value at exit is what the decoder produced)
+
+//@ func (*jwtAuthenticator).WithConfig
+//@   props C04
+//@   ensures old(len(config)) == 0 ==> ret1 == nil && unbox(ret0, *jwtAuthenticator) == a
+//@   ensures ret1 == nil && old(len(config)) != 0 && conf.AllowFallbackOnError != nil ==> unbox(ret0, *jwtAuthenticator).allowFallbackOnError == *conf.AllowFallbackOnError
+//@   ensures ret1 == nil && old(len(config)) != 0 && conf.AllowFallbackOnError == nil ==> unbox(ret0, *jwtAuthenticator).allowFallbackOnError == old(a.allowFallbackOnError)
+
+//@ func (*genericAuthenticator).WithConfig
+//@   props C04
+//@   ensures old(len(config)) == 0 ==> ret1 == nil && unbox(ret0, *genericAuthenticator) == a
+//@   ensures ret1 == nil && old(len(config)) != 0 && conf.AllowFallbackOnError != nil ==> unbox(ret0, *genericAuthenticator).allowFallbackOnError == *conf.AllowFallbackOnError
+//@   ensures ret1 == nil && old(len(config)) != 0 && conf.AllowFallbackOnError == nil ==> unbox(ret0, *genericAuthenticator).allowFallbackOnError == old(a.allowFallbackOnError)
+
+//@ func (*oauth2IntrospectionAuthenticator).WithConfig
+//@   props C04
+//@   ensures old(len(rawConfig)) == 0 ==> ret1 == nil && unbox(ret0, *oauth2IntrospectionAuthenticator) == a
+//@   ensures ret1 == nil && old(len(rawConfig)) != 0 && conf.AllowFallbackOnError != nil ==> unbox(ret0, *oauth2IntrospectionAuthenticator).allowFallbackOnError == *conf.AllowFallbackOnError
+//@   ensures ret1 == nil && old(len(rawConfig)) != 0 && conf.AllowFallbackOnError == nil ==> unbox(ret0, *oauth2IntrospectionAuthenticator).allowFallbackOnError == old(a.allowFallbackOnError)
+
+//@ func (*basicAuthAuthenticator).WithConfig
+//@   props C04
+//@   ensures old(len(rawConfig)) == 0 ==> ret1 == nil && unbox(ret0, *basicAuthAuthenticator) == a
+//@   ensures ret1 == nil && old(len(rawConfig)) != 0 && conf.AllowFallbackOnError != nil ==> unbox(ret0, *basicAuthAuthenticator).allowFallbackOnError == *conf.AllowFallbackOnError
+//@   ensures ret1 == nil && old(len(rawConfig)) != 0 && conf.AllowFallbackOnError == nil ==> unbox(ret0, *basicAuthAuthenticator).allowFallbackOnError == old(a.allowFallbackOnError)
